@@ -2,7 +2,8 @@
 import fw
 import pipecheck
 import pipes
-from pipecheck import canon_impl, canon_model, model_request  # noqa: F401
+import trampipes
+from pipecheck import canon_impl, canon_model  # noqa: F401
 
 LEAN_TARGETS = ["RxProofs.C02", "RxProofs.Ownership", "RxProofs.C02Comb", "RxProofs.C02Timed", "RxProofs.C02Win"]
 DRIVER = "drv_pipe"
@@ -14,9 +15,12 @@ THEOREMS = SUPPORT_THEOREMS + ["C02.settle_closed", "C02.closed_always", "C02.gr
 RULE = ("generated pipelines of 1..3 catalogued operator stages (122 stage kinds) over 4 logged cold/hot test sources with generated "
         "timelines (completion, error, never); every direct container call of the run is recorded and replayed through the Lean heap "
         "model (flags compared at every quiescent point); oracle: every test-source subscription is closed no later than the subscriber's "
-        "terminal notification. non-trivial = the subscriber got a terminal and at least two source subscriptions were opened")
+        "terminal notification. plus default-scheduler runs (harness/trampipes.py): trees of cold synchronous producers and combinators on "
+        "the current-thread trampoline, never disposed; oracle: once the terminal was delivered and the trampoline drained, every leaf "
+        "subscription that was opened has been released exactly once. non-trivial = the subscriber got a terminal and at least two "
+        "source subscriptions were opened")
 ASSUMPTIONS = ["windows and groups are flattened inside the generated pipelines, so the subscriber holds no live group/window after the terminal",
-               "single-threaded virtual-time execution"]
+               "single-threaded execution: virtual time for timelines, the default current-thread trampoline for cold synchronous producers"]
 TRUSTED_EXTRA = ["AST ownership translator harness/xlate/ownership.py (fails closed: unknown shapes are not 'owned')",
                  "class-level recording wrappers on the real disposable classes (harness/heaptrace.py)"]
 LEVEL_TEXT = ("Lean theorems over ALL sequences of container calls on a heap of disposables (Composite/Serial/SingleAssignment/MultipleAssignment/"
@@ -39,14 +43,27 @@ def cases(rng, tier):
         yield {"op": "pipeline", "pipeline": p}
     for _ in range(n):
         yield {"op": "pipeline", "pipeline": pipes.gen_case(rng, 3)}
+    for _ in range(fw.tier_scale(tier, 500, 6000)):
+        yield {"op": "tramp", "tree": trampipes.gen_tree(rng, 3), "k": None}
+
+
+def model_request(case):
+    return None if case["op"] == "tramp" else pipecheck.model_request(case)
 
 
 def impl(case):
+    if case["op"] == "tramp":
+        try:
+            return trampipes.run(case)
+        except Exception as e:  # noqa: BLE001 - a generated tree the library rejects when it is built
+            return {"log": [], "mark": None, "rejected": type(e).__name__, "base": []}
     out = pipes.run(case["pipeline"])
     return {"log": out["log"], "subs": out["subs"], "escaped": out["escaped"]}
 
 
 def oracle(case, out):
+    if case["op"] == "tramp":
+        return None if out.get("rejected") else trampipes.released(out)
     term = [t for t, n in out["log"] if n[0] in ("E", "C")]
     if not term:
         return None
@@ -59,16 +76,26 @@ def oracle(case, out):
 
 
 def nontrivial(case, out):
+    if case["op"] == "tramp":
+        return any(e[0] in ("E", "C") for e in out["log"]) and sum(1 for e in out["log"] if e[0] == "sub") >= 2
     return any(n[0] in ("E", "C") for _, n in out["log"]) and sum(len(s) for s in out["subs"]) >= 2
 
 
 def bucket(case, out):
+    if case["op"] == "tramp":
+        yield "tramp:" + ("terminal" if any(e[0] in ("E", "C") for e in out["log"]) else "rejected" if out.get("rejected") else "no-terminal")
+        return
     for s in case["pipeline"]["stages"]:
         yield "stage:" + s[0]
     yield "terminal" if any(n[0] in ("E", "C") for _, n in out["log"]) else "no-terminal"
 
 
 def shrink(case):
+    if case["op"] == "tramp":
+        import props.C03 as c03
+        for t in c03._subtrees(case["tree"]):
+            yield dict(case, tree=t)
+        return
     p = case["pipeline"]
     for i in range(len(p["stages"])):
         if len(p["stages"]) > 1:
@@ -84,7 +111,8 @@ def search(rng, tier, disagreeing):
     """failing-input search on the real code: stages of the disagreeing cases and of the ownership rows that are not owned"""
     names = set()
     for c in disagreeing:
-        names.update(s[0] for s in c["pipeline"]["stages"])
+        if c["op"] == "pipeline":
+            names.update(s[0] for s in c["pipeline"]["stages"])
     names.update(pipecheck.stages_for_rows(pipecheck.regenerate()["ownership_not_owned"]))
     names = sorted(n for n in names if n in pipes.STAGES) or None
     for i in range(fw.tier_scale(tier, 6000, 40000)):
@@ -93,4 +121,9 @@ def search(rng, tier, disagreeing):
         if v:
             f = fw.Failure("oracle", c, v)
             return fw.shrink_failure(__import__("props.C02", fromlist=["x"]), f)
+    for i in range(fw.tier_scale(tier, 1500, 10000)):
+        c = {"op": "tramp", "tree": trampipes.gen_tree(rng, 3), "k": None}
+        v = oracle(c, impl(c))
+        if v:
+            return fw.shrink_failure(__import__("props.C02", fromlist=["x"]), fw.Failure("oracle", c, v))
     return None
